@@ -920,13 +920,13 @@ func c04Lambda(c *lib.Ctx) {
 	nSweep := len(cases)
 	// composite: the full shape space (thorough) or a seeded sample of it (quick)
 	all := c04AllShapes()
-	budget := c.Scale(40, 256)
+	budget := c.Scale(32, 256)
 	if !c.Thorough() {
 		for i := len(all) - 1; i > 0; i-- {
 			j := c.Rng.Intn(i + 1)
 			all[i], all[j] = all[j], all[i]
 		}
-		all = all[:1000]
+		all = all[:800]
 	}
 	for si, sh := range all {
 		if len(sh.aux) > 0 && si%2 == 1 {
@@ -1270,7 +1270,7 @@ func runC04(c *lib.Ctx) {
 	}
 	sort.Strings(keys)
 	c.Ev.Coverage["lambda_contexts"] = keys
-	c.Ev.Coverage["rule"] = "part (i): cases = (lambda-list shape, argument vector) evaluated in up to fourteen call contexts (lambda, defun, shadowing let, funcall, apply, defmacro, multiple-value-call, apply with leading arguments, flavors method via send, CLOS method, two calls through mapcar and map with retained results, :around method chain with call-next-method with and without arguments, flavors whopper with continue-whopper); sweep = 47 minimal shapes (each parameter kind alone / in pairs) x systematic vectors of length 0..8 (positional counts, all key tails up to 2-3 pairs over declared/unknown/parameter-named keys, all key permutations, duplicates, odd and non-keyword tails), seed independent; composite = the 1680 shapes of the quantifier (thorough: all, quick: 1000 sampled by seed) x systematic + seeded random tails; part (ii): cells = (built-in, argc) for every function of every package, argc 0..documented max+2 (+4,+8,+16,+24 when unbounded). non-trivial = lambda list with >= 2 parameter kinds or argc at min-1, min, max, max+1; distinct by (shape, args) / (builtin, argc)"
+	c.Ev.Coverage["rule"] = "part (i): cases = (lambda-list shape, argument vector) evaluated in up to fourteen call contexts (lambda, defun, shadowing let, funcall, apply, defmacro, multiple-value-call, apply with leading arguments, flavors method via send, CLOS method, two calls through mapcar and map with retained results, :around method chain with call-next-method with and without arguments, flavors whopper with continue-whopper); sweep = 47 minimal shapes (each parameter kind alone / in pairs) x systematic vectors of length 0..8 (positional counts, all key tails up to 2-3 pairs over declared/unknown/parameter-named keys, all key permutations, duplicates, odd and non-keyword tails), seed independent; composite = the 1680 shapes of the quantifier (thorough: all, quick: 800 sampled by seed) x systematic + seeded random tails; part (ii): cells = (built-in, argc) for every function of every package, argc 0..documented max+2 (+4,+8,+16,+24 when unbounded). non-trivial = lambda list with >= 2 parameter kinds or argc at min-1, min, max, max+1; distinct by (shape, args) / (builtin, argc)"
 }
 
 func c04DumpFindings(c *lib.Ctx, path string) {
